@@ -8,6 +8,9 @@
       eraseKeepsCount  the erase loop counts down a variable other than the one passed to move_rel afterwards
       scrollGuard      scrollrect refuses rectangles whose DECSTBM / DECSLRM margins would be degenerate
       printnGuard      tickit_term_printn (src/term.c) returns at once for len == 0
+  * slrmAccept: the DECRPM reply values that on_modereport case 69 takes for DECSLRM support (the disjunction of
+    `value == N` tests guarding `xd->cap.slrm = 1`); any other shape of the condition is reported as untranslatable
+    and the values of the unchanged tree (1, 2) are kept, so that the correspondence check exposes the difference.
 """
 import re
 
@@ -105,11 +108,24 @@ def run(ctx):
     if not mp:
         info["untranslatable"].append("term:tickit_term_printn")
     pguard = bool(mp and re.search(r"if\s*\(\s*(!\s*len|len\s*==\s*0)\s*\)\s*return\s*;", mp.group(1)))
+    accept = None
+    mm = re.search(r"static\s+int\s+on_modereport\s*\([^)]*\)\s*\{(.*?)\n\}", text, re.S)
+    mc = mm and re.search(r"case\s+69\s*:(.*?)break\s*;", mm.group(1), re.S)
+    mi = mc and re.search(r"if\s*\(((?:[^()]|\([^()]*\))*)\)\s*xd->cap\.slrm\s*=\s*1\s*;", mc.group(1))
+    if mi:
+        terms = [t.strip() for t in mi.group(1).split("||")]
+        vals = [re.fullmatch(r"\(?\s*value\s*==\s*(\d+)\s*\)?", t) for t in terms]
+        if all(vals):
+            accept = [int(v.group(1)) for v in vals]
+    if accept is None:
+        info["untranslatable"].append("xterm:on_modereport-69-condition")
+        accept = [1, 2]
+    body += f"def slrmAccept : List Nat := [{', '.join(str(v) for v in accept)}]\n"
     body += f"def printnGuard : Bool := {'true' if pguard else 'false'}\n"
     body += f"def eraseChunk : Nat := {chunk}\n"
     body += f"def eraseKeepsCount : Bool := {'true' if keeps else 'false'}\n"
     body += f"def scrollGuard : Bool := {'true' if guard else 'false'}\n"
     body += "end Tickit.Gen.XTermFacts\n"
     ctx.write("XTermFacts", body)
-    facts.update({"eraseChunk": chunk, "eraseKeepsCount": keeps, "scrollGuard": guard, "printnGuard": pguard})
+    facts.update({"eraseChunk": chunk, "eraseKeepsCount": keeps, "scrollGuard": guard, "printnGuard": pguard, "slrmAccept": accept})
     info["xterm"] = facts
